@@ -5,3 +5,5 @@ cd "$(dirname "$0")"
 export GOFLAGS=-mod=mod GOPROXY=off GOSUMDB=off GOTOOLCHAIN=local
 cp /repo/go.sum go.sum
 go build -tags verif -o harness . 
+# race-detector variant (C19); built on demand by the C19 check: ./build.sh race
+if [ "$1" = race ]; then CGO_ENABLED=1 go build -race -tags verif -o harness_race . ; fi
